@@ -1162,7 +1162,8 @@ def check_user_reducers(prog, rep, m, entry, pubname='stats', param='stats_funcs
     pub = m.funcs.get(pubname)
     if pub is None or param not in pub.params:
         return 0
-    fv = _view(prog, pub)
+    from .inline import inline_view
+    fv = inline_view(prog, pub, allow_loops=True)        # the table may be consulted by a helper that loops over the names
     from .astutil import parent_map
     pm = parent_map(fv.node)
     lookups = []
@@ -1409,13 +1410,23 @@ def delayed_tasks(m):
 
 def ids_param(prog, g, depth=0):
     """the parameter of the stride routine (or of a routine that hands it on to the stride routine) that receives the id
-    vector: in `_strides` the one whose length bounds the loop over the ids; None for other functions"""
+    vector: in `_strides` the one whose length is the length of the vector of breaks returned (else the one the outermost
+    loop runs over); None for other functions"""
     if g.name == '_strides':
-        for n_ in g.own_nodes():
-            if isinstance(n_, ast.For) and isinstance(n_.iter, ast.Call) and short(n_.iter) in ('range', 'prange') and n_.iter.args:
-                for x in ast.walk(n_.iter.args[-1]):
-                    if isinstance(x, ast.Name) and x.id in g.params:
-                        return x.id
+        # one break per id: the vector returned is allocated with the length of the id vector ...
+        rets = {n_.value.id for n_ in g.own_nodes() if isinstance(n_, ast.Return) and isinstance(n_.value, ast.Name)}
+        for s_ in g.node.body:
+            if isinstance(s_, ast.Assign) and len(s_.targets) == 1 and isinstance(s_.targets[0], ast.Name) and s_.targets[0].id in rets and \
+                    isinstance(s_.value, ast.Call) and short(s_.value) in ('zeros', 'empty', 'ones', 'full') and s_.value.args:
+                ps = {x.id for x in ast.walk(s_.value.args[0]) if isinstance(x, ast.Name) and x.id in g.params}
+                if len(ps) == 1:
+                    return ps.pop()
+        # ... and the outermost loop runs over the ids
+        for s_ in g.node.body:
+            if isinstance(s_, ast.For):
+                ps = {x.id for x in ast.walk(s_.iter) if isinstance(x, ast.Name) and x.id in g.params}
+                if len(ps) == 1:
+                    return ps.pop()
         return g.params[1] if len(g.params) > 1 else None
     if depth >= 2 or g.is_lambda:
         return None
